@@ -339,9 +339,22 @@ def reference(line):
             if 0 in b:
                 return None
             return show_lines(ref_lines(b))
+        if op == "xrlw":
+            # while (readLine(s)) out << s: the LF-terminated lines, then the unterminated tail left by the `false` call
+            b = tok_bytes(t[1])
+            if 0 in b:
+                return None
+            ls = ref_lines(b)
+            return "%s last=%s end=1" % (show_lines(ls[:-1]), show_bytes(ls[-1]))
         if op == "xtext":
             r = ref_text(tok_bytes(t[1]))
             return None if r is None else show_bytes(r)
+        if op == "xfo" and t[2] == "o":
+            # an object of 1b whose open(1a, READ) failed, then one lazy writer: everything goes to 1a, 1b is untouched
+            b = tok_bytes(t[4])
+            if t[1] == "t" and (0 in b or b[:2] in (b"\xff\xfe", b"\xfe\xff", b"\xef\xbb")):
+                return None
+            return "open=0 w=1 size=%d data=%s path=0 raw0=%s raw1=8 70726563696f7573" % (len(b), show_bytes(b), show_bytes(b))
         if op == "xput":
             b = tok_bytes(t[2])
             return "%d %s raw=1" % (len(b), show_bytes(b))
@@ -606,7 +619,7 @@ def gen(rng, tier):
     batch = []
     for L in range(0, maxlen + 1):
         for t in itertools.product(b"a\r\n", repeat=L):
-            batch.append(("xlines " if len(batch) % 2 == 0 else "xrl ") + hexs(bytes(t)))
+            batch.append(("xlines ", "xrl ", "xrlw ")[len(batch) % 3] + hexs(bytes(t)))
             if len(batch) == 60:
                 cases.append(batch)
                 batch = []
@@ -618,7 +631,7 @@ def gen(rng, tier):
         pre = b"x" * base
         batch = []
         for tl in tails:
-            batch.append("xlines " + hexs(pre + tl))
+            batch.append(("xrlw " if len(batch) % 4 == 3 else "xlines ") + hexs(pre + tl))
             if len(batch) == 40:
                 cases.append(batch)
                 batch = []
@@ -630,6 +643,9 @@ def gen(rng, tier):
         c = ["xlines " + hexs(t)]
         if rng.random() < 0.5:
             c.append("xrl " + hexs(t))
+        if rng.random() < 0.5:
+            # the loop driven by the bool result of readLine(String&) (readLine_while_spec)
+            c.append("xrlw " + hexs(t))
         if rng.random() < 0.5:
             # the same text written with the asl API, read back line by line from a session
             c += ["tput 1b " + hexs(t), "open 1b t r"] + [rng.choice(["rl", "rl", "rl", "rlc 0a", "rlc 0d", "rlc 3b"]) for _ in range(rng.randrange(1, 7))]
@@ -645,10 +661,10 @@ def gen(rng, tier):
             b[pos:pos] = b"\x00"
         if rng.random() < 0.3:
             b = bytearray(b"\x00") + b
-        cases.append(["xlines " + hexs(bytes(b)), "xrl " + hexs(bytes(b)), "rawput 1b " + hexs(bytes(b)), "open 1b t r", "rl", "rl", "rl", "end", "close"])
+        cases.append(["xlines " + hexs(bytes(b)), "xrl " + hexs(bytes(b)), "xrlw " + hexs(bytes(b)), "rawput 1b " + hexs(bytes(b)), "open 1b t r", "rl", "rl", "rl", "end", "close"])
     # B4: long lines / many lines
     for n in ([3000, 65536, 200000] if quick else [3000, 65536, 200000, 1 << 20, 1 << 22]):
-        cases.append(["xlines " + btok(rng, n, True), "xrl " + btok(rng, n, True)])
+        cases.append(["xlines " + btok(rng, n, True), "xrl " + btok(rng, n, True), "xrlw " + btok(rng, n, True)])
     cases.append(["xlines " + hexs(b"\n" * (3000 if quick else 100000)), "xlines " + hexs(b"\r\n" * 2500)])
     # ---- (C) byte-order marks
     for i in range(300 if quick else 5000):
@@ -705,7 +721,14 @@ def gen(rng, tier):
     for k in range(1, 5 if quick else 9):
         L = 254 * k - 1
         t = b"x" * L + b"\r\n" + b"y" * (L - 1) + b"\r\r\n" + b"z" * L + b"\r\n"
-        cases.append(["xlines " + hexs(t), "xrl " + hexs(t), "tput 1b " + hexs(t), "open 1b t r", "rl", "rl", "rl", "rl", "end", "close"])
+        cases.append(["xlines " + hexs(t), "xrl " + hexs(t), "xrlw " + hexs(t), "tput 1b " + hexs(t), "open 1b t r", "rl", "rl", "rl", "rl", "end", "close"])
+    # ---- (F) operations through an object after a FAILED open (READ on a path that does not exist yet): the object refers to
+    # the name it was asked to open, the lazily opening writers create that file (failed_open_keeps_path, failed_open_then_write)
+    for i in range(48 if quick else 600):
+        k = rng.choice("ft")
+        api = "p" if k == "f" else rng.choice(["w", "a", "p", "s"])
+        n = rng.choice([0, 1, 5, 254, 255, 4097, 70000]) if rng.random() < 0.8 else rng.randrange(0, 3000)
+        cases.append(["xfo %s %s %s %s" % (k, "co"[i % 2], api, btok(rng, n, k == "t"))] + (["raw 1a", "raw 1b", "size 1a"] if rng.random() < 0.3 else []))
     # ---- (E) persistent objects: one File/TextFile object written through, queried while open, closed, read back
     for i in range(260 if quick else 4000):
         n1 = rng.choice(OBJ_SIZES)
@@ -1055,10 +1078,10 @@ def distribution(cases):
         for l in c:
             t = l.split()
             ops[t[0]] = ops.get(t[0], 0) + 1
-            if t[0] in ("xput", "xseq", "xobj", "hw", "happ", "hput", "hsh", "xcopy", "xmove", "put", "tput", "tapp", "rawput", "w", "sb", "ss"):
+            if t[0] in ("xput", "xseq", "xobj", "hw", "happ", "hput", "hsh", "xcopy", "xmove", "xfo", "put", "tput", "tapp", "rawput", "w", "sb", "ss"):
                 b = _bucket(tok_len(t[-1]))
                 sz[b] = sz.get(b, 0) + 1
-            if t[0] in ("xlines", "xrl") and tok_len(t[1]) <= 100000 and t[1][0] not in "gt":
+            if t[0] in ("xlines", "xrl", "xrlw") and tok_len(t[1]) <= 100000 and t[1][0] not in "gt":
                 b = unhex(t[1])
                 if not b:
                     ends["empty_file"] += 1
@@ -1073,7 +1096,7 @@ def distribution(cases):
                     linelen[k] += 1
             if t[0] == "xmove":
                 xdev["xmove_xdev" if t[1] == "1" else "xmove_same_device"] += 1
-            if t[0] in ("xlines", "xrl") and t[1][0] not in "gt" and tok_len(t[1]) <= 100000:
+            if t[0] in ("xlines", "xrl", "xrlw") and t[1][0] not in "gt" and tok_len(t[1]) <= 100000:
                 for seg in unhex(t[1]).split(b"\n")[:-1]:
                     if seg.endswith(b"\r") and len(seg) % 254 == 0:
                         crlf_split += 1
